@@ -211,6 +211,8 @@ func c10Case(env *Env, tape *sim.Tape) *CaseOut {
 		return c10Scaling(env, tape)
 	case d == 91:
 		return c10ScalingAt(env, tape)
+	case d == 3 || d == 90:
+		return c10HelperPkg(env, tape)
 	}
 	out := &CaseOut{}
 	di := tape.Draw(len(env.Corpus))
